@@ -20,6 +20,7 @@ Sem(r) ==
     [] r.kind = "subset"    -> ReindexIR(r.agg, r.ins[1], r.p.to)
     [] r.kind = "combine"   -> Combine(r.agg, r.ins, r.p.simple, r.p.reindexBlockwise, r.p.nanKeepsNaN)
     [] r.kind = "aggregate" -> AggregateSem(r.agg, r.ins, r.p)
+    [] r.kind = "blockwise" -> BlockwiseSem(r.agg, r.vals, r.codes, r.p)
 
 \* C06: the index block zipped with an array block is the GLOBAL arange cut like the array
 IndexBlockOk(r) ==
@@ -27,7 +28,7 @@ IndexBlockOk(r) ==
 
 Ok(r) ==
   /\ IndexBlockOk(r)
-  /\ IF r.kind = "aggregate" THEN ResultMatches(Sem(r), r.out) ELSE IRMatches(Sem(r), r.out)
+  /\ IF r.kind \in {"aggregate", "blockwise"} THEN ResultMatches(Sem(r), r.out) ELSE IRMatches(Sem(r), r.out)
 
 Init == l = 1
 
